@@ -709,6 +709,8 @@ fn rec_bytes(v: &Value) -> Vec<u8> {
         1 => r.bytes(len),
         2 => { let mut out = Vec::with_capacity(len + 8); while out.len() < len { out.extend_from_slice(WORDS[r.below(12) as usize].as_bytes()); } out.truncate(len); out }
         3 => (0..len).map(|i| (i as u64 + seed) as u8).collect(),
+        // a piece of the text the DictZip dictionaries / Huffman stores are trained on (wraps around): matches the dictionary well
+        5 => (0..len).map(|i| TRAIN_TEXT[(seed as usize + i) % TRAIN_TEXT.len()]).collect(),
         _ => (0..len).map(|_| if r.chance(7, 8) { b'a' } else { b'b' }).collect(),
     }
 }
@@ -727,7 +729,7 @@ fn gen_rec(r: &mut Rng, common_len: u64) -> Value {
         9 => r.range(1000, 5000),
         _ => r.below(80),
     };
-    let kind = match r.below(8) { 0 => 0, 1 | 2 => 1, 3 | 4 => 2, 5 => 3, _ => 4 };
+    let kind = match r.below(9) { 0 => 0, 1 | 2 => 1, 3 | 4 => 2, 5 => 3, 6 => 5, _ => 4 };
     json!([kind, len, r.below(1000)])
 }
 
@@ -1273,7 +1275,7 @@ fn gen_history(r: &mut Rng, spec: &str, max_ops: u64) -> Value { gen_history_siz
 fn gen_history_sized(r: &mut Rng, spec: &str, max_ops: u64, small: bool) -> Value {
     let n = r.range(3, max_ops);
     let common = *r.pick(&[0u64, 1, 5, 16, 64, 100]);
-    let gen_rec = |r: &mut Rng, common: u64| -> Value { if small { json!([r.below(5), *r.pick(&[0u64, 0, 1, 2, 3, 5, 5, 8, 13, 40]), r.below(100)]) } else { gen_rec(r, common) } };
+    let gen_rec = |r: &mut Rng, common: u64| -> Value { if small { json!([r.below(6), *r.pick(&[0u64, 0, 1, 2, 3, 5, 5, 8, 13, 40]), r.below(100)]) } else { gen_rec(r, common) } };
     let zero = base_of(spec).starts_with("zero");
     let mut ops: Vec<Value> = vec![];
     let mut issued = 0usize;
@@ -1329,7 +1331,7 @@ fn gen_bulk_history(spec: &str, n: u64, max_len: u64, salt: u64) -> Value {
 /// operations that read what it left behind (operations a stack does not have are skipped by the runner).
 fn gen_entry_history(r: &mut Rng, spec: &str, salt: u64) -> Value {
     let zero = base_of(spec).starts_with("zero");
-    let mut rec = |r: &mut Rng| if zero { json!([0, 0, 0]) } else { json!([r.below(5), *r.pick(&[1u64, 3, 9, 17, 40, 64, 70, 200, 700]), r.below(1000)]) };
+    let mut rec = |r: &mut Rng| if zero { json!([0, 0, 0]) } else { json!([r.below(6), *r.pick(&[1u64, 3, 9, 17, 40, 64, 70, 200, 700]), r.below(1000)]) };
     let all = |ops: &mut Vec<Value>, n: usize| for k in 0..n { ops.push(json!(["get", {"i": k}])); };
     let mut ops: Vec<Value> = vec![];
     ops.push(json!(["put", rec(r)])); ops.push(json!(["put", rec(r)])); ops.push(json!(["batch", [rec(r), rec(r)]]));
@@ -1364,6 +1366,10 @@ fn gen_threshold_history(spec: &str, sizes: &[u64], salt: u64) -> Value {
     ops.push(json!(["rewrap", salt]));
     ops.push(json!(["put", [1, sizes[0], salt + 99]]));
     ops.push(json!(["getb", [{"i": 1}, {"i": n}, {"i": 0}]]));
+    // (a bulk store behind the stack may refuse records of this size at finalize: the stack must go on working)
+    ops.push(json!(["finalize"]));
+    ops.push(json!(["put", [2, sizes[0] / 2, salt + 98]]));
+    ops.push(json!(["get", {"i": n + 1}]));
     ops.push(json!(["reopen"]));
     ops.push(json!(["iter"]));
     ops.push(json!(["len"]));
@@ -2027,6 +2033,20 @@ pub fn run(args: &Args) {
         let c = gen_threshold_history(spec, sizes, (args.seed % 7) + i as u64);
         run_case(&mut cx, &c, false);
         cx.sum.dist("threshold_histories");
+    }
+    // 2c'. the entropy stage of DictZip under every algorithm / interleave factor: many short compressible records (the stage is
+    //      kept only when it shrinks the PA-Zip output, which short text does now and then), each read back at once and at the end
+    for (i, spec) in ["dictzip_huff0", "dictzip_huff1", "dictzip_huff2", "dictzip_huff4", "dictzip_huff8", "dictzip_huff_r08", "dictzip_fse", "dictzip_fse4", "dictzip_fse_r08"].iter().enumerate() {
+        let mut ops: Vec<Value> = vec![];
+        for k in 0..(if args.thorough { 160u64 } else { 48 }) {
+            let len = 10 + (k * 7 + args.seed) % 53;
+            let kind = [5u64, 2, 5, 4, 5, 0][(k % 6) as usize];
+            ops.push(json!(["put", [kind, len, 600 + k * 13 + i as u64 + args.seed % 97]]));
+            if k % 4 == 3 { ops.push(json!(["get", {"i": k as usize}])); }
+        }
+        ops.push(json!(["iter"]));
+        run_case(&mut cx, &json!({"cell": spec, "kind": "history", "ops": ops}), false);
+        cx.sum.dist("entropy_stage_histories");
     }
     // 2d. histories with thousands of records
     for (i, (spec, n, max_len)) in BULK_CELLS.iter().enumerate() {
